@@ -108,6 +108,20 @@ check('C12', 'loadfault', 'fault_enumeration',
       'applied to characters, not raw bytes. Regex back-tracking inside C is only visible to the wall-clock backstop.',
       'DESIGN.md §4 C12')
 
+check('C13', 'oalfault', 'fault_enumeration',
+      'deterministic simulation with fault enumeration: storage faults (truncate / token delete, duplicate, swap, class flip / '
+      'character and whitespace flips / lost delimiters) on every site of a stored OAL corpus, partly end to end through model '
+      'files on a simulated disk; totality, metered and wall-clock bounded time, position self-consistency of every returned tree',
+      'Claimed narrowly. Sentence 1 (total, bounded) is decided over every single-fault site of the corpus: parse must return a '
+      'Node or raise ParseException, within a metered line-event budget, a per-parse wall budget (believed only after '
+      'confirmation in a fresh process with three times the budget) and the process watchdog for back-tracking inside C. '
+      'Sentence 2 (exact positions) is decided only as self-consistency of every tree these runs return: recorded substring = '
+      'text[start:end], line/column recomputed from the offsets, span on token boundaries of an independent tokenizer, span '
+      're-parses to a structurally equal node. Generating random layouts of generated programs is a pure-function exercise '
+      'outside this technique and is not attempted.',
+      'Trusted: the independent tokenizer and offset arithmetic in engines/oalfault.py; the committed corpus (corpus/oal). '
+      'Statement and expression nodes only; lines are delimited by \\n.', 'DESIGN.md §4 C13')
+
 
 def build():
     sys.path.insert(0, HERE)
@@ -157,7 +171,7 @@ def build():
 
 if __name__ == '__main__':
     # pending properties are claimed in DESIGN.md but their check is not committed yet
-    for pid in ('C01', 'C13', 'C18'):
+    for pid in ('C01', 'C18'):
         PENDING[pid] = 'simulation target per DESIGN.md; check under construction and not claimed until it is committed'
     doc = build()
     with open(os.path.join(HERE, 'MANIFEST.json'), 'w') as f:
